@@ -50,7 +50,8 @@ fn base(extras: bool, share: bool, f11: Option<&str>) -> Base {
     let r = xkey(100, extras);
     let t = xkey(101, extras);
     let s = if share { xkey(101, extras) } else { xkey(102, extras) };
-    let g = xkey(103, extras);
+    // with `share` the three online roles are held by one key
+    let g = if share { xkey(101, extras) } else { xkey(103, extras) };
     let d = xkey(104, extras);
     let mk_root = |version: u64| -> Value {
         let mut keys = Map::new();
@@ -113,6 +114,12 @@ fn base(extras: bool, share: bool, f11: Option<&str>) -> Base {
     docs.insert("root".into(), sign_with(&mk_root(1), &[&r]));
     docs.insert("root2".into(), sign_with(&mk_root(2), &[&r]));
     docs.insert("timestamp".into(), sign_with(&ts, &[&t]));
+    // a timestamp whose meta also lists what a snapshot lists (extra entries, as another
+    // implementation may write them): served in place of snapshot.json it would let a whole load
+    // succeed if the role tag were not bound
+    let mut tsw = ts.clone();
+    tsw["meta"] = json!({"snapshot.json": ts["meta"]["snapshot.json"].clone(), "targets.json": sn["meta"]["targets.json"].clone(), "d.json": sn["meta"]["d.json"].clone()});
+    docs.insert("timestamp-wide".into(), sign_with(&tsw, &[&t]));
     docs.insert("snapshot".into(), sign_with(&sn, &[&s]));
     docs.insert("targets".into(), sign_with(&tg, &[&g]));
     docs.insert("d".into(), d_env);
@@ -347,5 +354,47 @@ pub fn run(args: &[String]) {
         let r = rt.block_on(try_load(&sb, site, to_bytes(&sb.docs[doc]), &sb.docs[site]));
         rows.push(json!({"role": site, "path": format!("served:{doc}"), "class": "signed", "kind": "role-swap", "obs": r}));
     }
+    // the same with a timestamp that lists everything a snapshot lists, served as both
+    {
+        let mut ov = BTreeMap::new();
+        ov.insert("timestamp".to_string(), to_bytes(&sb.docs["timestamp-wide"]));
+        ov.insert("snapshot".to_string(), to_bytes(&sb.docs["timestamp-wide"]));
+        let (t, shipped) = transport_for(&sb, &ov, false);
+        let r = match rt.block_on(guard(load(&shipped, &t, None, None, true))) {
+            Err(p) => json!({"accepted": false, "cls": format!("panic:{p}")}),
+            Ok(Err(e)) => json!({"accepted": false, "cls": classify(&e)}),
+            Ok(Ok(_)) => json!({"accepted": true, "cls": "ok", "used_equals_signed_original": false}),
+        };
+        rows.push(json!({"role": "snapshot", "path": "served:timestamp-wide", "class": "signed", "kind": "role-swap", "obs": r}));
+    }
+    // role swap at the verification API: every document of an online role parsed as every other
+    // online role type and verified under a root in which one key holds all three roles
+    for site in ["timestamp", "snapshot", "targets"] {
+        for doc in ["timestamp", "timestamp-wide", "snapshot", "targets"] {
+            if doc.starts_with(site) {
+                continue;
+            }
+            let r = api_verify(&sb, site, doc);
+            rows.push(json!({"role": site, "path": format!("api:{doc}"), "class": "signed", "kind": "role-swap", "obs": r}));
+        }
+    }
     write_ndjson(&out, &rows);
+}
+
+fn api_verify(b: &Base, site: &str, doc: &str) -> Value {
+    use tough::schema::{Root, Signed, Snapshot, Targets, Timestamp};
+    let root: Signed<Root> = serde_json::from_slice(&to_bytes(&b.docs["root"])).expect("root parses");
+    let bytes = to_bytes(&b.docs[doc]);
+    let res: Result<(), String> = match site {
+        "timestamp" => serde_json::from_slice::<Signed<Timestamp>>(&bytes).map_err(|e| format!("parse: {e}"))
+            .and_then(|s| root.signed.verify_role(&s).map_err(|e| format!("verify: {e}"))),
+        "snapshot" => serde_json::from_slice::<Signed<Snapshot>>(&bytes).map_err(|e| format!("parse: {e}"))
+            .and_then(|s| root.signed.verify_role(&s).map_err(|e| format!("verify: {e}"))),
+        _ => serde_json::from_slice::<Signed<Targets>>(&bytes).map_err(|e| format!("parse: {e}"))
+            .and_then(|s| root.signed.verify_role(&s).map_err(|e| format!("verify: {e}"))),
+    };
+    match res {
+        Ok(()) => json!({"accepted": true, "cls": "ok", "used_equals_signed_original": false}),
+        Err(e) => json!({"accepted": false, "cls": e.chars().take(80).collect::<String>()}),
+    }
 }
